@@ -4,7 +4,7 @@
 set -e
 D=$(mktemp -d /var/tmp/vita-baseline-XXXXXX)
 trap 'rm -rf "$D"' EXIT
-cmake -G Ninja -S /repo/src -B "$D" -DCMAKE_BUILD_TYPE=Release > "$D/cmake.log" 2>&1 || { cat "$D/cmake.log"; exit 1; }
+cmake -G Ninja -S /repo/src -B "$D" -DCMAKE_BUILD_TYPE=RelWithDebInfo -DCMAKE_CXX_FLAGS=-Wno-error > "$D/cmake.log" 2>&1 || { cat "$D/cmake.log"; exit 1; }
 cmake --build "$D" -j16 > "$D/build.log" 2>&1 || { tail -50 "$D/build.log"; exit 1; }
 ctest --test-dir "$D/test" -j8 --timeout 900 --output-junit "$D/junit.xml" || true
 python3 - "$D/junit.xml" <<'PY'
